@@ -55,7 +55,9 @@ CLAIMED['C14'] = dict(category='proof',
         'independent), the region total is the sum of its parts and only grows, a spacer grid anywhere in two consecutive '
         'steps (za, zb], (zb, zc] - including exactly on the plane zb - is charged exactly once; two grids listed in either order are '
         'each charged once by the real calculate_pressure_drop - also when both lie in one step, at one position, or on the lower '
-        'bound of the bundle in its first step; and the assembly total '
+        'bound of the bundle in its first step or on its upper bound in its last step. The planes are integer multiples of the '
+        '1e-12 m raster and the position and step handed to the region carry a bounded floating-point drift (assumed below a '
+        'quarter raster unit); grids lie anywhere and are read on the raster. The assembly total '
         'accumulates a finished region exactly once across a region change.',
    note=_ASSUME + 'Friction factor, velocity and density are the static values held by the region (positive atoms).',
    technique='contract-based deductive verification (proxy execution, path enumeration over the grid comparisons, exact normaliser)')
@@ -277,7 +279,11 @@ CLAIMED['C18'] = dict(category='proof',
         'every wire, bundle fits in every duct, walls of non-zero thickness inside the assembly pitch, equal outer ducts, '
         'non-negative bypass fraction, flowing gap only with gap flow, axial regions of positive height inside the core, no '
         'overlap, coolant in every region, exactly one pin-bundle region of positive height with the stored bounds, regions '
-        '+ bundle tile the core. Each contract demands at least one accepted and one rejected path.',
+        '+ bundle tile the core. The boundary condition of an assigned position goes through '
+        'check_assignment_boundary_conditions and convert_assn_deltaT_to_outletT in the order the real constructor calls '
+        'them (read from its AST on every run): accepted only with exactly one keyword, a positive value, an outlet '
+        'temperature above the inlet temperature; what the solver gets is a flow rate or outlet = inlet + rise. '
+        'Each contract demands at least one accepted and one rejected path.',
    note=_ASSUME + 'Numeric keys only; 1-2 assemblies, 1-2 ducts, 1-2 axial regions (3 in the thorough tier). The other '
         'half of the property - every class of bad input ends in a logged error before the sweep, every accepted input '
         'can be set up and swept - is a BOUNDED run-time contract: 64 single-fault perturbations across the input keys '
